@@ -538,7 +538,9 @@ func (f *sweepFamily) attribute(failures []sweepFailure) {
 		d := f.datum(min)
 		mclause, det := ep.eval(d, fl.dl)
 		if mclause == "" || (!every && m > leaf.min && fails(m-1)) {
-			run.EngineError("length-sweep: reduction of %s %s/%s n=%d lost the failure", ep.name, leaf.name, pos.name, fl.n)
+			od := f.datum(fl.sweepCase)
+			unstable(fmt.Sprintf("codec/%s/%s/length-sweep", ep.name, fl.clause), ep, fl.dl, fl.clause, sigName(od),
+				fmt.Sprintf("leaf %s of length %d at position %s (%s)", leaf.name, fl.n, pos.name, enum.SweepContentRule), refmodel.Encode(od))
 			continue
 		}
 		tk := fmt.Sprintf("%d|%d|%d", k.ep, k.leaf, m)
